@@ -129,6 +129,8 @@ def run_case(spec, ctx):
     model, poses, vels = consgen.random_model(rng, fam, nb, springs=springs, moving=moving,
                                               layout="hanging" if layout == "hanging" else "random")
     ctx.cls("springs:compliance_form" if any(sp.get("compliance") for sp in model["springs"]) else "springs:force_form_only")
+    if any(sp.get("internal") for sp in model["springs"]):
+        ctx.cls("springs:internal_pair_on_one_body")
     model["layout"] = layout
     states = consgen.state_arrays(model, poses, vels)
     t0 = float(np.round(rng.normal(), 3)) if rng.random() < 0.4 else 0.0
